@@ -3,11 +3,21 @@
 #include <numeric>
 #include <istream>
 #include <algorithm>
+#include <limits>
 
 #include <boost/tokenizer.hpp>
 #include <boost/algorithm/string.hpp>
 
 namespace AIToolbox {
+    namespace {
+        // Whether a table of a*b*c doubles can be addressed at all (no size_t
+        // overflow). All inputs must be non-zero.
+        bool tableFits(const size_t a, const size_t b, const size_t c) {
+            constexpr size_t maxElements = std::numeric_limits<size_t>::max() / sizeof(double);
+            return a <= maxElements / b && a * b <= maxElements / c;
+        }
+    }
+
     CassandraParser::CassandraParser() {
         // Assign an action to parse each value for the preambles. Lines parsed
         // in the preamble are parsed before the others.
@@ -38,6 +48,8 @@ namespace AIToolbox {
 
         if (!S || !A)
             throw std::runtime_error("MDP definition is incomplete");
+        if (!tableFits(S, A, S))
+            throw std::runtime_error("MDP definition is too large");
 
         // Init matrices to store data.
         T.resize(boost::extents[S][A][S]);
@@ -73,6 +85,8 @@ namespace AIToolbox {
 
         if (!S || !A || !O)
             throw std::runtime_error("POMDP definition is incomplete");
+        if (!tableFits(S, A, S) || !tableFits(S, A, O))
+            throw std::runtime_error("POMDP definition is too large");
 
         // Init matrices to store data.
         T.resize(boost::extents[S][A][S]);
